@@ -1,18 +1,22 @@
 #!/bin/bash
 # Runs the repository's own test suite (both modules) on a scratch copy of the
-# current /repo working tree and prints pass/fail counts. The go tool is never
-# run inside /repo (with -mod=mod it would rewrite /repo/go.sum).
+# current /repo working tree: `go test -json` streams on stdout, a pass/fail
+# summary on stderr, exit 0 iff no test failed. There are no source hooks, so
+# "guard off" is simply the tree as it is. The go tool is never run inside
+# /repo (with -mod=mod it would rewrite /repo/go.sum).
 set -u
 export GOFLAGS=-mod=mod GOPROXY=off GOSUMDB=off GOTOOLCHAIN=local
 REPO=${VERIF_REPO:-/repo}
 S=$(mktemp -d /tmp/verif-baseline-XXXXXX)
 trap 'rm -rf "$S"' EXIT
 rsync -a --exclude .git "$REPO"/ "$S"/repo/
-rc=0
+i=0
 for m in . v2; do
-  (cd "$S/repo/$m" && go test -vet=off -count=1 -timeout 25m -json ./... > "$S/out.$(basename $(realpath $m)).json" 2>"$S/err.txt") || true
+  i=$((i+1))
+  (cd "$S/repo/$m" && go test -vet=off -count=1 -timeout 25m -json ./... > "$S/out.$i.json" 2>"$S/err.$i.txt") || true
+  cat "$S/out.$i.json"
 done
-python3 - "$S" <<'PY'
+python3 - "$S" >&2 <<'PY'
 import json,sys,glob
 p=f=0; failed=[]
 for fn in glob.glob(sys.argv[1]+'/out.*.json'):
